@@ -1961,6 +1961,10 @@ def python_to_sdocs(
     if depth is None:
         depth = float('inf')
 
+    if max_seq_len is None:
+        # Documented as "disables truncation".
+        max_seq_len = sys.maxsize
+
     doc = pretty_python_value(
         value,
         ctx=PrettyContext(
